@@ -124,3 +124,24 @@ Example C02_whole_register_example :
   pexpand env0 (decls ++ [SMeasure (QId "q") (Some (c 0))]) = None /\
   pexpand env0 (decls ++ [SBarrier [QId "q"; q 1]]) = None.
 Proof. vm_compute. repeat split; reflexivity. Qed.
+
+(* index sets r[{i, j, ...}] of integer literals are operands of the same judgement: the bits in the order written, every
+   index checked against the register, a repeated bit refused (the implementation raises "Duplicate qubit") *)
+Example C02_index_set_example :
+  let q k := QIdx "q" [IdxList [IExpr (ELit (VInt k))]] in
+  let c k := QIdx "c" [IdxList [IExpr (ELit (VInt k))]] in
+  let qs l := QIdx "q" [IdxSet (map (fun k => ELit (VInt k)) l)] in
+  let cs l := QIdx "c" [IdxSet (map (fun k => ELit (VInt k)) l)] in
+  let decls := [SInclude "stdgates.inc"; SQubitDecl "q" (Some (ELit (VInt 4))); SClassicalDecl (TBit (Some (ELit (VInt 4)))) "c" None] in
+  let p := decls ++ [SGate [] "h" [] [qs [0; 2]]; SReset (qs [1; 2]); SBarrier [qs [0; 3]];
+                     SMeasure (qs [2; 3]) (Some (cs [0; 1]))] in
+  pexpand env0 p =
+    Some (decls ++ [SGate [] "h" [] [q 0]; SGate [] "h" [] [q 2]; SReset (q 1); SReset (q 2);
+                    SBarrier [q 0]; SBarrier [q 3]; SMeasure (q 2) (Some (c 0)); SMeasure (q 3) (Some (c 1))],
+          [[Qr ("q", 0)]; [Qr ("q", 2)]; [Qr ("q", 1)]; [Qr ("q", 2)];
+           [Qr ("q", 0); Qr ("q", 3)]; [Qr ("q", 2); Br ("c", 0)]; [Qr ("q", 3); Br ("c", 1)]]) /\
+  match unroll_v false [] p, pexpand env0 p with Ok o, Some (e, _) => list_eqb stmt_eqb (o_stmts o) e | _, _ => false end = true /\
+  pexpand env0 (decls ++ [SGate [] "h" [] [qs [0; 4]]]) = None /\
+  pexpand env0 (decls ++ [SBarrier [qs [1; 1]]]) = None /\
+  pexpand env0 (decls ++ [SGate [] "h" [] [qs [1; 1]]]) = None.
+Proof. vm_compute. repeat split; reflexivity. Qed.
